@@ -196,7 +196,48 @@ pub fn gen_leaf(rng: &mut Rng, k: Kind, class: GenClass, style: LeafStyle, ordin
 }
 
 pub fn gen_leaves(rng: &mut Rng, kinds: &[(Kind, GenClass)], style: LeafStyle) -> Vec<u64> {
-    kinds.iter().enumerate().map(|(i, (k, c))| gen_leaf(rng, *k, *c, style, i)).collect()
+    kinds
+        .iter()
+        .enumerate()
+        .map(|(i, (k, c))| {
+            let b = gen_leaf(rng, *k, *c, style, i);
+            // one time in five a float lands a few ulps beside the "nice" value: the pitch clamp just
+            // under a quarter turn, an angle accumulated in steps, a bound nudged to stay inside
+            let r = rng.next_u64();
+            if k.is_float() && matches!(style, LeafStyle::Specials | LeafStyle::Typical | LeafStyle::Mixed) && r % 5 == 0 {
+                ulp_neighbour(*k, b, ((r >> 8) % 4 + 1) as i64 * if (r >> 16) & 1 == 0 { 1 } else { -1 })
+            } else {
+                b
+            }
+        })
+        .collect()
+}
+
+/// The float `n` ulps away (in bit-pattern order, which is value order within one sign), if that
+/// is still a finite value of the same sign; otherwise the value itself.
+pub fn ulp_neighbour(k: Kind, bits: u64, n: i64) -> u64 {
+    match k {
+        Kind::F64 => {
+            let mag = bits & 0x7fff_ffff_ffff_ffff;
+            let m2 = mag as i128 + n as i128;
+            if m2 <= 0 || m2 >= 0x7ff0_0000_0000_0000 {
+                bits
+            } else {
+                (bits & 0x8000_0000_0000_0000) | m2 as u64
+            }
+        }
+        Kind::F32 => {
+            let b = bits as u32;
+            let mag = b & 0x7fff_ffff;
+            let m2 = mag as i64 + n;
+            if m2 <= 0 || m2 >= 0x7f80_0000 {
+                bits
+            } else {
+                ((b & 0x8000_0000) | m2 as u32) as u64
+            }
+        }
+        _ => bits,
+    }
 }
 
 /// Values with the coincidences ordinary user data is full of and independent draws never
@@ -1240,9 +1281,53 @@ pub fn harvest_literals() -> Vec<String> {
             i += 1;
         }
     }
+    // identifiers, too, of every file that carries hand-written serde code: a name can reach a key
+    // comparison without ever being a string literal (`stringify!(translation)` in a macro)
+    let mut files2: Vec<std::path::PathBuf> = match std::fs::read_dir(&dir) {
+        Ok(rd) => rd.filter_map(|e| e.ok()).map(|e| e.path()).filter(|p| p.extension().map(|x| x == "rs").unwrap_or(false)).collect(),
+        Err(_) => Vec::new(),
+    };
+    files2.sort();
+    let mut idents: Vec<String> = Vec::new();
+    for f in files2 {
+        let text = match std::fs::read_to_string(&f) {
+            Ok(t) => t,
+            Err(_) => continue,
+        };
+        let hand_written = text.contains("Deserialize<") && text.contains("impl") && (text.contains("Visitor") || text.contains("fn deserialize") || text.contains("fn serialize"));
+        if !hand_written {
+            continue;
+        }
+        let mut cur = String::new();
+        let mut in_comment = false;
+        let b: Vec<char> = text.chars().collect();
+        let mut i = 0;
+        while i <= b.len() {
+            let c = if i < b.len() { b[i] } else { ' ' };
+            if !in_comment && c == '/' && i + 1 < b.len() && b[i + 1] == '/' {
+                in_comment = true;
+            }
+            if c == '\n' {
+                in_comment = false;
+            }
+            if !in_comment && (c.is_alphanumeric() || c == '_') {
+                cur.push(c);
+            } else {
+                if cur.len() >= 2 && cur.len() <= 24 && !cur.chars().next().unwrap().is_numeric() {
+                    idents.push(cur.clone());
+                }
+                cur.clear();
+            }
+            i += 1;
+        }
+    }
+    idents.sort();
+    idents.dedup();
+    idents.truncate(600);
+    out.extend(idents);
     out.sort();
     out.dedup();
-    out.truncate(2000);
+    out.truncate(2600);
     out
 }
 
